@@ -138,6 +138,10 @@ impl StageSpec {
         (mix64(val as u64 ^ ((self.salt as u64) << 20) ^ 0x77) % 64) as u32
     }
     pub fn fan(&self, id: u64, val: u32) -> u64 {
+        // whole regions of the input may flat-map to nothing (keep is All unless the generator gates the fan-out)
+        if !self.keep.keeps(id, val) {
+            return 0;
+        }
         let v = if self.fan_var == 0 {
             0
         } else {
